@@ -300,8 +300,16 @@ impl Model {
             .map(|ctrl| ctrl.stopped())
             .unwrap_or(false);
 
+        #[cfg(feature = "verif")]
+        crate::verif::sched::log(format!("hb.ms {}", matcher_stopped));
+        #[cfg(feature = "verif")]
+        crate::verif::sched::point(if matcher_stopped { "hb.ms_true" } else { "hb.ms_false" });
         if matcher_stopped {
             let reader_stopped = self.reader_control.as_ref().map(ReaderControl::is_done).unwrap_or(true);
+            #[cfg(feature = "verif")]
+            crate::verif::sched::log(format!("hb.rs1 {}", reader_stopped));
+            #[cfg(feature = "verif")]
+            crate::verif::sched::point("hb.after_rs1");
             let ctrl = self.matcher_control.take().unwrap();
             let lock = ctrl.into_items();
             let mut items = lock.lock();
@@ -320,6 +328,8 @@ impl Model {
                     }
                 }
             };
+            #[cfg(feature = "verif")]
+            crate::verif::sched::log(format!("hb.harvest n={}", matched.len()));
             self.num_options += matched.len();
             self.selection.append_sorted_items(matched);
         }
@@ -327,6 +337,8 @@ impl Model {
         let items_consumed = self.item_pool.num_not_taken() == 0;
         let reader_stopped = self.reader_control.as_ref().map(|c| c.is_done()).unwrap_or(true);
         let processed = reader_stopped && items_consumed;
+        #[cfg(feature = "verif")]
+        crate::verif::sched::log(format!("hb.ic {} hb.rs2 {}", items_consumed, reader_stopped));
 
         // run matcher if matcher had been stopped and reader had new items.
         if !processed && self.matcher_control.is_none() {
@@ -339,9 +351,16 @@ impl Model {
             let hb_timer_guard =
                 self.timer
                     .schedule_with_delay(TimerDuration::milliseconds(REFRESH_DURATION), move || {
+                        #[cfg(feature = "verif")]
+                        crate::verif::sched::log("timer".to_string());
                         let _ = tx.send((Key::Null, Event::EvHeartBeat));
                     });
             self.hb_timer_guard.replace(hb_timer_guard);
+            #[cfg(feature = "verif")]
+            crate::verif::sched::log("hb.arm".to_string());
+        } else {
+            #[cfg(feature = "verif")]
+            crate::verif::sched::point("hb.idle");
         }
     }
 
@@ -353,6 +372,8 @@ impl Model {
             ctrl.kill();
         }
 
+        #[cfg(feature = "verif")]
+        crate::verif::sched::log("querychange".to_string());
         env.clear_selection = ClearStrategy::Clear;
         self.item_pool.reset();
         self.num_options = 0;
@@ -364,20 +385,30 @@ impl Model {
             return;
         }
 
+        #[cfg(feature = "verif")]
+        crate::verif::sched::point("s1.enter");
         let items_consumed = self.item_pool.num_not_taken() == 0;
         let reader_stopped = self.reader_control.as_ref().map(|c| c.is_done()).unwrap_or(true);
         let matcher_stopped = self.matcher_control.as_ref().map(|ctrl| ctrl.stopped()).unwrap_or(true);
 
         let processed = reader_stopped && items_consumed && matcher_stopped;
+        #[cfg(feature = "verif")]
+        crate::verif::sched::log(format!("s1.reads ic={} rs={} ms={}", items_consumed, reader_stopped, matcher_stopped));
         let num_matched = self.selection.get_num_options();
         if processed {
             if num_matched == 1 && self.select1 {
                 debug!("select-1 triggered, accept");
+                #[cfg(feature = "verif")]
+                crate::verif::sched::log(format!("s1.decide accept n={}", num_matched));
                 let _ = self.tx.send((Key::Null, Event::EvActAccept(None)));
             } else if num_matched == 0 && self.exit0 {
                 debug!("exit-0 triggered, accept");
+                #[cfg(feature = "verif")]
+                crate::verif::sched::log(format!("s1.decide abort n={}", num_matched));
                 let _ = self.tx.send((Key::Null, Event::EvActAbort));
             } else {
+                #[cfg(feature = "verif")]
+                crate::verif::sched::log(format!("s1.decide interactive n={}", num_matched));
                 // no longer need need to handle select-1, exit-1, sync, etc.
                 self.select1 = false;
                 self.exit0 = false;
@@ -396,6 +427,8 @@ impl Model {
             ctrl.kill();
         }
 
+        #[cfg(feature = "verif")]
+        crate::verif::sched::log("cmdchange".to_string());
         env.clear_selection = ClearStrategy::ClearIfNotNull;
         self.item_pool.clear();
         self.num_options = 0;
@@ -411,6 +444,8 @@ impl Model {
         if let Some(ctrl) = self.matcher_control.take() {
             ctrl.kill();
         }
+        #[cfg(feature = "verif")]
+        crate::verif::sched::log("querychange".to_string());
         env.clear_selection = ClearStrategy::Clear;
         self.item_pool.reset();
         self.num_options = 0;
@@ -505,6 +540,12 @@ impl Model {
             let (key, ev) = next_event.take().or_else(|| self.rx.recv().ok())?;
 
             debug!("handle event: {:?}", ev);
+            #[cfg(feature = "verif")]
+            crate::verif::sched::log(format!("loop.begin {:?}", ev));
+            #[cfg(feature = "verif")]
+            if ev != Event::EvHeartBeat {
+                crate::verif::sched::point("loop.user");
+            }
 
             match ev {
                 Event::EvHeartBeat => {
@@ -657,7 +698,37 @@ impl Model {
 
             let _ = self.do_with_widget(|root| self.term.draw(&root));
             let _ = self.term.present();
+            #[cfg(feature = "verif")]
+            crate::verif::sched::log(format!("loop.end {}", self.verif_snapshot(&env)));
         }
+    }
+
+    #[cfg(feature = "verif")]
+    fn verif_snapshot(&self, env: &ModelEnv) -> String {
+        if !crate::verif::sched::tracing() {
+            return String::new();
+        }
+        let list: Vec<String> = self.selection.verif_items().iter().map(|(i, _)| i.to_string()).collect();
+        let sel: Vec<String> = self
+            .selection
+            .verif_selected_keys()
+            .iter()
+            .map(|(r, i)| format!("{}:{}", r, i))
+            .collect();
+        format!(
+            "list={} sel={} nopt={} mc={} clear={:?} cur={} run={} pool={}/{} rdone={} q={:?}",
+            list.join(","),
+            sel.join(","),
+            self.num_options,
+            self.matcher_control.is_some(),
+            env.clear_selection,
+            self.selection.get_current_item_idx(),
+            current_run_num(),
+            self.item_pool.num_taken(),
+            self.item_pool.len(),
+            self.reader_control.as_ref().map(|c| c.is_done()).unwrap_or(true),
+            env.query,
+        )
     }
 
     fn draw_preview(&mut self, env: &ModelEnv, force: bool) {
@@ -713,6 +784,8 @@ impl Model {
             let new_items = self.reader_control.as_ref().map(|c| c.take()).unwrap();
             let _ = self.item_pool.append(new_items);
         };
+        #[cfg(feature = "verif")]
+        crate::verif::sched::log(format!("restart done={}", processed));
 
         // send heart beat (so that heartbeat/refresh is triggered)
         let _ = self.tx.send((Key::Null, Event::EvHeartBeat));
